@@ -33,6 +33,10 @@ type harnessErr struct{ msg string }
 
 func (e *harnessErr) Error() string { return e.msg }
 
+var hotNS = map[string]int64{} // time spent per phase (reported as counters)
+
+func phase(name string, t0 *time.Time) { hotNS[name] += int64(time.Since(*t0)); *t0 = time.Now() }
+
 var (
 	hotBroken string // set after the first harness failure: later hot-reload members fail fast
 	syncSeq   int
@@ -116,9 +120,12 @@ func hotReload(in *inst, how string) (err error) {
 		return &harnessErr{werr.Error()}
 	}
 	fds := inotifyFDs()
+	pt := time.Now()
 	r := scheduler.VerifStartEntryReader(in.DAGs, in.Root, venv.Quiet, in.client())
 	defer func() {
 		// stop the watcher and wait until its inotify instance is released (no leak across members)
+		pt = time.Now()
+		defer phase("stop", &pt)
 		r.Stop()
 		for t0 := time.Now(); inotifyFDs() > fds; time.Sleep(200 * time.Microsecond) {
 			if time.Since(t0) > hotWait {
@@ -135,9 +142,11 @@ func hotReload(in *inst, how string) (err error) {
 			return &harnessErr{fmt.Sprintf("the watcher did not create an inotify instance within %s (limit reached -> polling fallback?)", hotWait)}
 		}
 	}
+	phase("start", &pt)
 	if serr := syncReader(in, r, "boot"); serr != nil {
 		return serr
 	}
+	phase("boot-sync", &pt)
 	before, _, _ := r.Entry(name, hotWait)
 	var derr error
 	switch how {
@@ -154,6 +163,7 @@ func hotReload(in *inst, how string) (err error) {
 	if serr := syncReader(in, r, how); serr != nil {
 		return serr
 	}
+	phase("deliver+sync", &pt)
 	after, _, locked := r.Entry(name, hotWait)
 	if !locked {
 		return &harnessErr{"table lock not released after the reload"}
